@@ -33,7 +33,7 @@ end
 """
 import re
 
-DIRECTIVES = ('hook_spec', 'hook_ensures', 'hook_requires', 'nohints', 'closure', 'serves', 'mode', 'ret', 'requires', 'ensures', 'loop', 'entry', 'at', 'after', 'outline', 'extra',
+DIRECTIVES = ('tail', 'hook_spec', 'hook_ensures', 'hook_requires', 'nohints', 'closure', 'serves', 'mode', 'ret', 'requires', 'ensures', 'loop', 'entry', 'at', 'after', 'outline', 'extra',
               'attr', 'recommends', 'decreases', 'sig', 'nounwind', 'specimpl', 'replace_sig')
 
 
@@ -75,6 +75,7 @@ class Contract:
         self.sig = None
         self.used = False
         self.nohints = False
+        self.tail = None
         self.hook_spec = []
         self.hook_ensures = []
         self.hook_requires = []
@@ -164,6 +165,12 @@ def parse_sidecar(path):
             txt, i = block(i + 1)
             name = rest or ('%s%d' % (d[:3], len(getattr(cur, d)) + 1))
             getattr(cur, d).append(Clause(d, name, txt, None, here, path))
+        elif d == 'tail':
+            mm = re.match(r'"(.*)"\s*$', rest)
+            if not mm:
+                raise SyntaxError('%s:%d: tail needs the quoted first line of the tail expression' % (path, i + 1))
+            txt, i = block(i + 1)
+            cur.tail = (mm.group(1), txt)
         elif d == 'hook_spec':
             txt, i = block(i + 1)
             cur.hook_spec.append(txt)
